@@ -473,6 +473,112 @@ def specLoad {α P : Type} (isNan : α → Bool) (rp : Vendor → Image α → P
   if acc.isEmpty then none else
   some (specPost isNan rp v ((byRank (fun e => acqKey v e.name) acc).map (·.line)))
 
+/-! ## option objects and histories of calls
+
+`load` has no state of its own: `option_for_path` builds new option objects on every call, `load` reads
+`option.drop_names`, `option.drop_nan_rows`, `option.drop_nan_columns` (and the methods of the option's
+class) and assigns to none of them.  What exists between two calls is the file system and the option
+objects the CALLER holds.  `World` is exactly that; `step` runs one call of the caller. -/
+
+/-- the attributes of an option object that `load` reads; the class fixes `regex`, `sortkey`,
+`readParams` and `kw_genfromtxt` -/
+structure Opt where
+  cls : Vendor
+  dropNames : List String
+  dropNanRows : Bool
+  dropNanCols : Bool
+  deriving DecidableEq, Repr
+
+/-- `NuOption()`, `ThermoLDROption()`, `TofwerkOption()`, `GenericOption()` -/
+def mkOpt (v : Vendor) : Opt :=
+  { cls := v, dropNames := dropNames v, dropNanRows := dropsNan v, dropNanCols := dropsNan v }
+
+/-- the tail of `load` as written: `if option.drop_nan_rows`, `if option.drop_nan_columns`,
+`option.readParams(data)`, `rfn.drop_fields(data, option.drop_names)` -/
+def postO {α P : Type} (isNan : α → Bool) (rp : Vendor → Image α → P) (o : Opt) (img : Image α) : Image α × P :=
+  let d0 := if o.dropNanRows then dropNanRows isNan img else img
+  let d1 := if o.dropNanCols then dropNanCols isNan d0 else d0
+  (dropFields o.dropNames d1, rp o.cls d1)
+
+/-- `load(path, option, full=True)` on an option OBJECT: the result, and the object after the call
+(no attribute of it is assigned anywhere in `load`) -/
+def loadO {α P : Type} (isNan : α → Bool) (rp : Vendor → Image α → P) (tkey : List Nat → Int) (o : Opt)
+    (listing : List (Entry α)) (π : List Nat) : Option (Image α × P) × Opt :=
+  let res :=
+    if (visible listing).isEmpty then none else
+    if !keysDefined o.cls ((accepted o.cls listing).map (·.name)) then none else
+    let lines := readLines o.cls tkey listing π
+    if lines.isEmpty then none else
+    some (postO isNan rp o (stack lines))
+  (res, o)
+
+/-- `option_for_path(dir)`: a NEW object of the detected class -/
+def optionForPath {α : Type} (listing : List (Entry α)) : Opt := mkOpt (autodetect listing)
+
+/-- what persists between calls: the directories (by path) and the option objects the caller holds -/
+structure World (α : Type) where
+  fs : Nat → List (Entry α)
+  opts : List Opt
+
+/-- one action of the caller -/
+inductive Call (α : Type) where
+  /-- the directory at path `p` is (re)written -/
+  | write (p : Nat) (listing : List (Entry α))
+  /-- `o = NuOption()` …: a new object, kept -/
+  | newOpt (v : Vendor)
+  /-- `o = option_for_path(p)`: kept -/
+  | detect (p : Nat)
+  /-- the caller changes attributes of an object it holds -/
+  | editOpt (i : Nat) (f : Opt → Opt)
+  /-- `load(p, full=True)` -/
+  | importAuto (p : Nat) (π : List Nat)
+  /-- `load(p, option=opts[i], full=True)` -/
+  | importWith (i : Nat) (p : Nat) (π : List Nat)
+
+/-- one call: the world after it and, for an import, what it returned -/
+def step {α P : Type} (isNan : α → Bool) (rp : Vendor → Image α → P) (tkey : List Nat → Int) (w : World α) :
+    Call α → World α × Option (Option (Image α × P))
+  | .write p l => ({ w with fs := fun q => if q = p then l else w.fs q }, none)
+  | .newOpt v => ({ w with opts := w.opts ++ [mkOpt v] }, none)
+  | .detect p => ({ w with opts := w.opts ++ [optionForPath (w.fs p)] }, none)
+  | .editOpt i f => ({ w with opts := w.opts.modify i f }, none)
+  | .importAuto p π =>
+    -- `option = option_for_path(path)`: an object no one else holds
+    (w, some (loadO isNan rp tkey (optionForPath (w.fs p)) (w.fs p) π).1)
+  | .importWith i p π =>
+    match w.opts[i]? with
+    | none => (w, none)
+    | some o =>
+      let r := loadO isNan rp tkey o (w.fs p) π
+      ({ w with opts := w.opts.set i r.2 }, some r.1)
+
+/-- the world after a sequence of calls -/
+def exec {α P : Type} (isNan : α → Bool) (rp : Vendor → Image α → P) (tkey : List Nat → Int) (w : World α) :
+    List (Call α) → World α
+  | [] => w
+  | c :: cs => exec isNan rp tkey (step isNan rp tkey w c).1 cs
+
+/-- what each call returned (`none` for a call that is no import) -/
+def trace {α P : Type} (isNan : α → Bool) (rp : Vendor → Image α → P) (tkey : List Nat → Int) (w : World α) :
+    List (Call α) → List (Option (Option (Image α × P)))
+  | [] => []
+  | c :: cs => (step isNan rp tkey w c).2 :: trace isNan rp tkey (step isNan rp tkey w c).1 cs
+
+/-- the directory at path `p` as it is on disk when call number `k` is made -/
+def dirAt {α P : Type} (isNan : α → Bool) (rp : Vendor → Image α → P) (tkey : List Nat → Int) (w : World α)
+    (cs : List (Call α)) (k p : Nat) : List (Entry α) :=
+  (exec isNan rp tkey w (cs.take k)).fs p
+
+/-- the listing the last `write` to path `p` among `cs` left there -/
+def lastWrite {α : Type} (p : Nat) : List (Call α) → Option (List (Entry α))
+  | [] => none
+  | c :: cs =>
+    match lastWrite p cs with
+    | some l => some l
+    | none => match c with
+      | .write q l => if q = p then some l else none
+      | _ => none
+
 /-! ## parameter extraction (exact rationals; `none` = NaN) -/
 
 abbrev V := Option Rat
